@@ -50,7 +50,7 @@ RECURSIVE ModelCellBound(_)
 ModelCellBound(node) ==
     LET n == IF HasField(node, "n") THEN node.n ELSE 1
         own == CASE node.k = "Alma" -> 3 * n [] node.k = "LaguerreFilter" -> 8 [] node.k = "LaguerreRSI" -> 12
-                 [] node.k = "CyberCycle" -> 10 [] OTHER -> n
+                 [] node.k = "CyberCycle" -> 10 [] node.k = "EhlersFisherTransform" -> n + 2 [] OTHER -> n
         kids == IF HasField(node, "c") THEN node.c ELSE <<>>
     IN  own + (IF kids = <<>> THEN 0 ELSE ModelCellBound(kids[1]) + (IF Len(kids) > 1 THEN ModelCellBound(kids[2]) ELSE 0))
 
